@@ -18,7 +18,7 @@ reg(
     "C20",
     "TLA+ R-spec of the helper contracts (NumHelpers.tla: number-grammar DFA, big-natural arithmetic, alignment / width / byte-order operators); "
     "TLC enumerates the case space and checks the contracts as theorems (NumHelpersMC), the real functions are executed on every case, "
-    "TLC decides every recorded observation (NumHelpersTrace, batch trace validation)",
+    "TLC decides every recorded observation (NumHelpersTrace, batch trace validation) A token lane (sequences of grammar tokens up to 8 / 10 characters), every width up to 520 bits, hex text in its three prefix forms and pattern blocks longer than one period complete the enumerated space.",
     "Exhaustive within bounds: every string of length <= 4 (quick) / 5 (thorough) over a 16-symbol alphabet and ~17k helper cases are "
     "states of the TLC model; each is executed on the real code and the observation is accepted or rejected by TLC against the R-spec. "
     "Large values (to 2^512) are seeded samples decided by the same spec.",
@@ -31,7 +31,7 @@ reg(
     "TLA+ R-spec of the register file as bit-vectors (Registers.tla: views as functions of the raw bit sets; RegFile.tla: one action per public "
     "operation, refusals and read-only operations as identity steps); TLC model-checks the lemmas, generates behaviours (exhaustive to depth 2 on a "
     "tiny layout, -simulate on generated layouts), each behaviour is replayed on a real Registers object and the logged projection of the real state "
-    "is validated step by step by TLC (RegFileTrace)",
+    "is validated step by step by TLC (RegFileTrace) Layouts include hex-string groups, reversed plain registers with bit-fields, digit-only / small values and targeted group histories.",
     "Model checking of the semantics within small bounds (lemmas LastWriteWins, Independent, ViewsConsistent, Frozen) + every generated behaviour "
     "executed on the real object and accepted/rejected by TLC. Exhaustive for all 2-step histories over the tiny layout's action alphabet; sampled "
     "(seeded) for 12..16-step histories on layouts with widths up to 512 bits, groups, reversed byte/sub-register order, enums, SHIFT_RIGHT.",
@@ -46,7 +46,7 @@ reg(
     "machine over definitions and sections); TLC enumerates expression ASTs (with evaluator lemmas) and programs (exhaustive single statements, "
     "-simulate for multi-construct programs); a renderer prints them as BD text with minimal parentheses, the real BDParser + "
     "BootImageV21.load_from_config process the text, TLC (BdTrace) re-executes the program on the state machine and decides every logged "
-    "option value, section id and command",
+    "option value, section id and command Key blobs, encrypt and keywrap statements are decided by an owner clause (the loaded bytes are decrypted / unwrapped with every defined key blob through an independent OTFAD model). System lane spec/SYS/SbLoadTrace.tla: BdProg composed with the SB2 boot-ROM automaton of C04 and the mboot link of C10 - BD text -> SB2.1 file -> receive_sb_file -> device twin -> ROM executor, decoded sections / commands compared with the language semantics.",
     "Exhaustive over all depth<=2 expression ASTs in the asserted domain (18 binary, 3 unary operators, size suffixes) and over the single-statement "
     "menu (16 statement kinds x operand forms; quick tier: seeded subset); simulated for multi-section programs with constants referring to earlier "
     "constants, several definitions per line, several options blocks, sources/extern files and 12 unsupported constructs that must be refused.",
@@ -61,7 +61,7 @@ reg(
     "TLA+ I-spec of the cache protocol (DbCache.tla, one action per file-system primitive, both cache variants) composed with the crash / advisory-lock "
     "environment and model-checked (NoFatal, NeverTrustDamaged, MutualExclusion, liveness Progress, SoloRepairs; the two pre-repair designs must be refuted); "
     "TLC-generated schedules (interleavings + kills) replayed on real forked SPSDK processes by interposition on the module globals of "
-    "spsdk.utils.database; every primitive-level trace decided by TLC against the R-spec FsEnvTrace.tla (file system + lock + process death + outcome monitor)",
+    "spsdk.utils.database; every primitive-level trace decided by TLC against the R-spec FsEnvTrace.tla (file system + lock + process death + outcome monitor) The I-spec also models the cache folder and entries merged from a stale file (NeverTrustStale; two harmless-looking design variants are refuted by TLC on every run); StaleTrace.tla decides histories with REAL edits of a private data folder (device file, add-ons / restricted overlay, new device, cached configuration file) between runs.",
     "Design-level exhaustive model checking for 2 (thorough: 3) processes, <= 1 (2) kills and all six initial file kinds, plus conformance: real processes "
     "driven along TLC schedules, solo first use on every damaged state including a sweep of truncated prefixes of both cache files (thorough: dense), late "
     "kills, two-process races through the damaged-cache handler and unsynchronised fresh interpreters; clauses NoFatal, AnswersTrue (digest of a query battery "
@@ -77,7 +77,7 @@ reg(
     "(NoFalseSuccess, PartialIsFlagged, Documented, MirrorNoFault, liveness Terminates; the pre-repair host must be refuted); TLC-generated fault classes "
     "(shape, packets, kind, frame position) expanded to concrete operations, byte and bit positions and executed by the real McuBoot / SDP objects "
     "against an executable device twin below the framing layer (serial CRC frames and USB-HID reports); every recorded history (frames seen / emitted, "
-    "injected fault, API result) decided by TLC against the R-specs MbootTrace.tla / SdpTrace.tla, which also constrain the twin itself",
+    "injected fault, API result) decided by TLC against the R-specs MbootTrace.tla / SdpTrace.tla, which also constrain the twin itself Command layer MbootCmds.tla / SdpTrace: the packets that reach the device twin (tag, flags, parameter words; SDP address, format, count, value) are compared with the definition of each of 34 driven operations, arguments from boundary value classes; clause StrictFaults (NAK / abort / truncated / missing frame end the call in failure); the device's property report is checked for history independence.",
     "Model checking of the protocol design with 0..3 data packets and <= 1 (thorough: 2) faults, plus conformance of ~3000 (thorough: more) real executions: "
     "17 mboot operations x length classes x packet sizes x both transports x cached / uncached packet size, random multi-call histories on one object, all "
     "TLC fault classes x byte/bit positions, benign not-ready bytes, device-reported errors; SDP read / write / write-file / dcd / csf / status / jump / skip-dcd over "
